@@ -157,7 +157,7 @@ def _shard_entry(packed):
     fn, arg = packed
     try:
         r = fn(arg)
-        if not isinstance(r, Result):
+        if type(r).__name__ != "Result":       # (by name: in a spawned child this module is loaded twice)
             raise TypeError("shard %r returned %r" % (fn, type(r)))
         return ("ok", r)
     except BaseException as e:  # noqa: transported to the parent
@@ -191,7 +191,9 @@ class Ctx:
         if nproc == 1 and not fresh:
             outs = [_shard_entry((fn, a)) for a in args]
         else:
-            mp = multiprocessing.get_context("fork")
+            # fresh shards get a newly started interpreter (spawn): nothing the parent has executed so far - the
+            # regression replays, for one - has left marks in the library's caches and registries
+            mp = multiprocessing.get_context("spawn" if fresh else "fork")
             with mp.Pool(nproc, maxtasksperchild=1 if fresh else None) as pool:
                 outs = pool.map(_shard_entry, [(fn, a) for a in args], chunksize=1)
         for kind, payload in outs:
